@@ -76,14 +76,47 @@ def run_case(case, fake, mod):
             setattr(ptime, n, v)
 
 
+def run_sys(case):
+    """whole system (fresh interpreter, deterministic scheduler): launch() with a fixed-interval interaction and a time scale;
+    the step starts, step durations and loop overheads of the inference thread are read off the run"""
+    import os
+    import subprocess
+    runner = os.path.join(os.path.dirname(os.path.abspath(__file__)), "sys.py")
+    ch = subprocess.run([sys.executable, "-B", runner], input=json.dumps([case["spec"]]), capture_output=True, text=True, env=dict(os.environ), timeout=300)
+    try:
+        r = json.loads(ch.stdout)[0]
+    except Exception:  # noqa: BLE001
+        return {"crash": "whole-system runner produced nothing: " + ch.stderr[-500:]}
+    if r.get("error"):
+        return {"error": r["error"], "tb": r.get("tb")}
+    p = r.get("pacing")
+    if r.get("deadlock") is not None or not p or "t0" not in p:
+        return {"error": f"run did not finish: {r.get('deadlock')}", "outcome": r.get("outcome")}
+    fx = lambda h: Fraction(float.fromhex(h))                                           # noqa: E731
+    steps = [s for s in p["steps"] if s[2] is not None]
+    n = min(len(steps), len(p["after_adjust"]) + 1, 40)
+    ticks, prev = [], fx(p["raw0"])
+    for i in range(n):
+        T, rb, re = (fx(x) for x in steps[i])
+        ticks.append({"eps": rb - prev, "dur": re - rb})
+        if i < len(p["after_adjust"]):
+            prev = fx(p["after_adjust"][i])
+    q = lambda x: [x.numerator, x.denominator]                                           # noqa: E731
+    return {"t0": q(fx(p["t0"])), "starts": [q(fx(s[0])) for s in steps[:n]], "ref_starts": [q(fx(s[0])) for s in steps[:n]],
+            "derived_ticks": [{"pause": [0, 1], "eps": q(t["eps"]), "dur": q(t["dur"])} for t in ticks], "outcome": r.get("outcome")}
+
+
 def main():
     cases = json.load(sys.stdin)
+    if cases and all(c.get("kind") == "sys" for c in cases):
+        print(json.dumps([run_sys(c) for c in cases]))
+        return
     fake = FakeTime()
     mod = fresh_pamiq_time(fake)
     out = []
     for c in cases:
         try:
-            out.append(run_case(c, fake, mod))
+            out.append(run_sys(c) if c.get("kind") == "sys" else run_case(c, fake, mod))
         except Exception as e:  # noqa: BLE001
             import traceback
             out.append({"error": f"{type(e).__name__}: {e}", "tb": traceback.format_exc()[-700:]})
